@@ -248,6 +248,35 @@ pub fn run(tier: &str) -> i32 {
         phases.push(json!({"phase": "reference-made tokens over messages that are not UTF-8", "executions": n}));
     }
 
+    // phase 4d: messages beyond a megabyte (block-wise processing usually starts somewhere): 1 MiB + 1 for every
+    // protocol (thorough: also 2 MiB + 1 and 4 MiB + 1), with a footer and, where the protocol has one, an assertion
+    {
+        let mut n = 0;
+        let lens: Vec<usize> = if quick { vec![1_048_577] } else { vec![1_048_577, 2_097_153, 4_194_305] };
+        let cfg_mode = crate::report::profile().starts_with("cfg-");
+        for p in Proto::ALL {
+            // quick: the protocols whose reference is fast at this size; feature-configuration builds: none
+            if cfg_mode || (quick && !matches!(p, Proto::V4L | Proto::V2L | Proto::V4P)) {
+                continue;
+            }
+            let al = reduced(p);
+            let seed_v = if p.is_local() { al.seeds[1].clone() } else { vec![] };
+            let seed = if p.is_local() { Some(seed_v.as_slice()) } else { None };
+            let (f, a) = (Some("big".to_string()), if p.has_assertion() { Some("{\"assertion\":\"big\"}".to_string()) } else { None });
+            for len in &lens {
+                let msg = domains::message(*len, 1);
+                let case = IssueCase::new(p, Layer::Core, &al.keys[0], seed, &msg, &f, &a);
+                all.executions += 1;
+                n += 1;
+                match case.issue() {
+                    Out::Ok(token) => emitted.push(Emitted { case, key_ref: al.keys[0].secret_for_ref.clone(), token }),
+                    other => all.violate(format!("C08|{}|issue-large:{}", p.name(), other.short()), format!("issuing a {}-byte message failed: {}", len, other.short()), json!({"issue": {"proto": p.name(), "len": len}})),
+                }
+            }
+        }
+        phases.push(json!({"phase": "messages beyond a megabyte", "executions": n, "lengths": lens}));
+    }
+
     // phase 5: nonce seeds (found by search with the reference, fixtures/ctr_wrap.json, re-verified here) whose
     // derived AES-CTR IV is within 64 blocks of a 2^32 wrap of its low word: a counter narrower than the
     // specification's 128 bits diverges inside a 1 025-byte message
